@@ -488,7 +488,22 @@ def _scalar(e):
     return e
 
 
-def run_call(case, record=True, owned=False):
+def _refill(buffers, data):
+    """The caller's buffer(s) of an earlier call, refilled in place with this call's values (same shapes and dtypes),
+    or None when they do not fit."""
+    a = data if isinstance(data, list) else [data]
+    b = buffers if isinstance(buffers, list) else [buffers]
+    if isinstance(data, list) != isinstance(buffers, list) or len(a) != len(b):
+        return None
+    if not all(isinstance(y, np.ndarray) and x.shape == y.shape and x.dtype == y.dtype and y.flags.writeable
+               for x, y in zip(a, b)):
+        return None
+    for x, y in zip(a, b):
+        np.copyto(y, x)
+    return buffers
+
+
+def run_call(case, record=True, owned=False, buffers=None):
     """Execute the call described by `case` under the simulator; returns an Outcome."""
     ft = core.load_fast_ticc()
     sim = Sim(case, record=record)
@@ -497,6 +512,12 @@ def run_call(case, record=True, owned=False):
     out.case = case
     out.sim = sim
     data, kwargs = workload.materialise(case)
+    out.buffer_reused = False
+    if buffers is not None:
+        refilled = _refill(buffers, data)
+        if refilled is not None:
+            data = refilled
+            out.buffer_reused = True
     if case.get("wrong_front"):
         # give the front end the other front end's kind of input
         front = ft.ticc_labels if case["front"] == "joint" else ft.ticc_joint_labels
@@ -613,9 +634,12 @@ def _children_after(wait=3.0):
 def execute(case, record=True, owned=False):
     """Run the case's process history (untraced), then the case itself."""
     hist_out = []
+    buffers = None
     for h in case.get("history", []):
-        ho = run_call(h, record=False)
+        ho = run_call(h, record=False, buffers=buffers if h.get("reuse_buffer") else None)
         hist_out.append((ho.ok, ho.exc[0] if ho.exc else None))
-    out = run_call(case, record=record, owned=owned)
+        if case.get("reuse_buffer") or h.get("reuse_buffer"):
+            buffers = ho.data      # a caller that keeps one buffer and refills it between calls
+    out = run_call(case, record=record, owned=owned, buffers=buffers if case.get("reuse_buffer") else None)
     out.history_outcomes = hist_out
     return out
